@@ -26,6 +26,7 @@ fn dispatch(cmd: &str, args: &[&str]) -> String {
         "hier" => hier::run(args),
         "vhdr" => hier::run_vhdr(args),
         "detect" => detect::run(args),
+        "detectx" => detect::run(args),
         "slice" => slice::run(args),
         "loadseq" => loadseq::run(args),
         "loadseqf" => loadseq::run_file(args),
